@@ -1,8 +1,8 @@
 (* Dispatcher for C08: run the program semantics of Model/PType.v over the observed transition
    function on an encoded case.
      1 :: wcode :: ccode :: n :: (kind :: a :: b) * n
-         kind 0 = MulType (ptype a) (clip b), 1 = MulClass (class a) (override, clip) with
-         b = clip + 2 * (0 for no override | 1 + ptype code),
+         kind 0 = MulType (ptype a) with b = clip + 2 * mism,
+         1 = MulClass (class a) with b = clip + 2 * mism + 4 * (0 for no override | 1 + ptype code),
          2 = Propagate (method a), 3 = Fresh (St (wtype a) (content b))
        -> 0 :: n :: outcomes (Yields s -> 0 w c ; Raises e k -> 1 e w c)
      2 :: k  -> 0 :: pcode (observed_class_ptype k)
@@ -16,15 +16,15 @@ Definition emalformed : list Z := [2].
 
 Definition pop (kind a b : Z) : option (op cls) :=
   match kind with
-  | 0 => match ptype_of_code a, bool_of_code b with
-         | Some p, Some c => Some (MulType p c) | _, _ => None end
-  | 1 => match cls_of_code a, bool_of_code (b mod 2) with
-         | Some k, Some c =>
+  | 0 => match ptype_of_code a, bool_of_code (b mod 2), bool_of_code (b / 2) with
+         | Some p, Some c, Some m => if b <? 0 then None else Some (MulType p c m) | _, _, _ => None end
+  | 1 => match cls_of_code a, bool_of_code (b mod 2), bool_of_code ((b / 2) mod 2) with
+         | Some k, Some c, Some m =>
              if b <? 0 then None else
-             if b / 2 =? 0 then Some (MulClass k None c)
-             else match ptype_of_code (b / 2 - 1) with
-                  | Some p => Some (MulClass k (Some p) c) | None => None end
-         | _, _ => None end
+             if b / 4 =? 0 then Some (MulClass k None c m)
+             else match ptype_of_code (b / 4 - 1) with
+                  | Some p => Some (MulClass k (Some p) c m) | None => None end
+         | _, _, _ => None end
   | 2 => match method_of_code a, b with
          | Some m, 0 => Some (Propagate m) | _, _ => None end
   | 3 => match wtype_of_code a, content_of_code b with
